@@ -191,7 +191,8 @@ class PSFModelMachine(Machine):
         if r < 0.80:
             return {'op': 'eval', 'actor': k,
                     'grid': rng.pick(['int', 'frac', 'knot', 'knot',
-                                      'outside', 'line', 'scalar']),
+                                      'outside', 'line', 'scalar',
+                                      'broadcast', 'border']),
                     'n': rng.randint(2, 6),
                     'jit': [rng.uniform(-0.5, 0.5), rng.uniform(-0.5, 0.5)]}
         if r < 0.88 and len(st.actors) < 5:
@@ -270,6 +271,19 @@ class PSFModelMachine(Machine):
             hy = st.ny / oy
             xs = x0 + np.array([-hx, -hx / 2 - 0.01, 0.0, hx / 2 + 0.01, hx])
             ys = y0 + np.array([-hy, 0.0, hy])
+            return np.meshgrid(xs, ys)
+        if kind == 'broadcast':
+            # row vector against column vector (numpy broadcasting)
+            xs = x0 + np.linspace(-2, 2, n + 2) + jx
+            ys = y0 + np.linspace(-1.5, 1.5, n + 1) + jy
+            return xs[np.newaxis, :], ys[:, np.newaxis]
+        if kind == 'border':
+            # points exactly on and just beyond the footprint border
+            ex = (st.nx - 1 - orx) / ox
+            ey = (st.ny - 1 - ory) / oy
+            xs = x0 + np.array([-orx / ox, -orx / ox - 1e-9, ex, ex + 1e-9,
+                                0.0])
+            ys = y0 + np.array([-ory / oy, ey, 0.0])
             return np.meshgrid(xs, ys)
         if kind == 'line':
             xs = x0 + np.linspace(-3, 3, 2 * n + 1) + jx
